@@ -1037,6 +1037,27 @@ func vRunC09Case(out *vOut, r *vRand, id int, stats map[string]int) {
 			c.layout()
 			c.doCleanRetention(ttl)
 			c.layout()
+			if !c.viol && r.intn(3) == 0 {
+				// repeated clean, same limits and cut-off (C09_repeated_clean_idempotent): with last-write
+				// times in order nothing more may go
+				before := c.segInfo()
+				sorted := true
+				for k := 1; k < len(before); k++ {
+					if before[k].lastTs < before[k-1].lastTs {
+						sorted = false
+					}
+				}
+				c.doCleanRetention(ttl)
+				c.layout()
+				c.stats["clean-repeated-same-cutoff"]++
+				if after := c.segInfo(); !c.viol && len(after) != len(before) {
+					if sorted {
+						c.violation("retention-repeat-removes", fmt.Sprintf("a second Clean with the same cut-off %d removed %d more segments: %v -> %v", ttl, len(before)-len(after), before, after))
+					} else {
+						c.stats["clean-repeated-removes-unordered-times"]++
+					}
+				}
+			}
 		case 4:
 			// a clean during which new batches arrive (and usually roll a segment)
 			ttl := int64(1000 + r.intn(int(c.nextTs-1000)+6))
